@@ -12,7 +12,7 @@ MENU = [
 ]
 
 
-def check_case(acc, a5, paths, t, limit):
+def check_case(acc, a5, paths, t, limit, edits=False):
     """one (list, target) case"""
     rs = [rm.res(p) for p in paths]
     too_fine = any(r > t for r in rs)
@@ -82,6 +82,26 @@ def check_case(acc, a5, paths, t, limit):
     if size > len(paths):
         acc.n['nontrivial'] += 1
     acc.outcome(hash(tuple(out[:64])) ^ len(out))
+    if edits and size <= 4 ** 4:
+        # a caller owns what it was handed: lists returned earlier by uncompact / cell_to_children for the same cells are edited in
+        # place, then the same expansion is requested again and must come out unchanged
+        want_out = list(out)
+        try:
+            del out[::2]
+            out.append(0)
+            for c, r in zip(ids, rs):
+                if r <= t:
+                    ch = a5.cell_to_children(c, t)
+                    del ch[::2]
+                    ch.extend([0, c])
+            again = a5.uncompact(list(ids), t)
+        except Exception as e:
+            acc.violation(f'c10:{k}:after-edits-raises', f'after the caller edited lists returned by earlier uncompact / cell_to_children calls, the same uncompact raised {e!r}', dict(case, edits=True))
+            return
+        acc.n['transitions'] += 1
+        acc.n['repeated_after_caller_edits'] += 1
+        if again != want_out:
+            acc.violation(f'c10:{k}:after-edits', 'after the caller edited lists returned by earlier uncompact / cell_to_children calls, the same uncompact returns different cells', dict(case, edits=True))
 
 
 def work_lists(task):
@@ -90,7 +110,7 @@ def work_lists(task):
     acc = common.Acc()
     for paths in lists:
         for t in range(0, 30):
-            check_case(acc, a5, paths, t, limit)
+            check_case(acc, a5, paths, t, limit, edits=len(paths) <= 2)
     return acc
 
 
@@ -130,7 +150,7 @@ def run(tier, t0):
     acc.sample({'list(paths)': [list(MENU[12])], 'target': 27, 'expected': 'ValueError'})
     rule = (f'all lists of length 0..{L} (order and repetition matter) over a 16-cell menu (world, res 0-3, a res 27-29 chain) x every target 0..29 '
             f'whose output has <= {limit} cells or that must raise; plus every antichain of the E3 lattice (edit depth {k}) in two orders x targets Rmax, Rmax+1; '
-            'non-trivial = cases that really expand')
+            'for lists of length <= 2 the lists returned by uncompact and by cell_to_children for the same cells are then edited in place and the expansion is repeated; non-trivial = cases that really expand')
     return common.finish(PID, LEVEL, tier, acc, t0, rule, [
         'reference descendants = tuple-path extension (vf/refmodel.py)',
         'within a block only the set of cells is compared (the statement does not fix an order inside a block); block order and multiplicity are compared exactly',
@@ -145,5 +165,5 @@ def _dispatch(t):
 def replay(case):
     import a5
     acc = common.Acc()
-    check_case(acc, a5, [tuple(p) for p in case['list']], case['t'], 4 ** 8)
+    check_case(acc, a5, [tuple(p) for p in case['list']], case['t'], 4 ** 8, edits=bool(case.get('edits')))
     return [(k, w) for k, w, _ in acc.violations]
